@@ -221,7 +221,40 @@ def check_C13(tier, seed, t0):
     return ir_flow("C13", tier, seed, descs, C13_RULES, models, COMMON_ASSUME, t0, hang_is_violation=True)
 
 
-CHECKS = {"C05": check_C05, "C01": check_C01, "C02": check_C02, "C07": check_C07, "C13": check_C13}
+def fn_driver(d):
+    return "drv_fn"
+
+
+def check_C18(tier, seed, t0):
+    parts = 16
+    if tier == "quick":
+        base = "mode=sort;lenfull=5;lensmall=5;clenfull=4;clensmall=4;nlong=6;seed=%d" % seed
+    else:
+        base = "mode=sort;lenfull=6;lensmall=7;clenfull=5;clensmall=7;nlong=40;seed=%d" % seed
+    descs = [base + ";part=%d;parts=%d" % (i, parts) for i in range(parts)]
+    own = ["IsPermutation", "OrderedByKey", "BothEndsPrefix", "RejectsUndefinedRule", "AcceptsDefinedRule", "CompileTimeRejection", "UnknownRow"]
+    models = [("MC_SR.tla", "SR.cfg", 4)]
+    return ir_flow("C18", tier, seed, descs, own, models, COMMON_ASSUME[:1] + [
+        "the table driver enumerates the stated alphabet domain completely (row counts are reported in coverage_counters)",
+        "exhaustive over the stated finite domain (lengths 0..7 over the value alphabets), sampled for long vectors"], t0,
+        trace_module="TraceFn.tla", trace_cfg="TraceFn.cfg", driver_of=fn_driver, extra_cov=dict(exhaustive=True))
+
+
+def check_C19(tier, seed, t0):
+    if tier == "quick":
+        descs = ["mode=rng;steps=67108864;cpbits=17;nsamp=3000;imax=4096;seed=%d" % seed]
+    else:
+        descs = ["mode=rng;steps=2147483646;cpbits=21;nsamp=200000;imax=1048576;seed=%d" % seed]
+    own = ["ExactParkMillerStep", "WalkStepsExact", "NeverDegenerate", "WalkEndsAtPower", "CheckpointsOnCycle", "SeedNormalised",
+           "DrawInRange", "DrawIsStateOverM", "ComplexDrawTwoStates", "SeedPure", "VecConsumesLenStates", "UnknownRow"]
+    models = [("MC_PM.tla", "PM_quick.cfg" if tier == "quick" else "PM_full.cfg", 8)]
+    return ir_flow("C19", tier, seed, descs, own, models, COMMON_ASSUME[:1] + [
+        "the cycle walk's per-step comparison uses a 64-bit reference product in C++; TLC certifies the checkpoints and the end point independently",
+        "quick walks the first 2^26 states of the single cycle; thorough walks all 2^31 - 2 states"], t0,
+        trace_module="TraceFn.tla", trace_cfg="TraceFn.cfg", driver_of=fn_driver)
+
+
+CHECKS = {"C18": check_C18, "C19": check_C19, "C05": check_C05, "C01": check_C01, "C02": check_C02, "C07": check_C07, "C13": check_C13}
 
 
 def main():
